@@ -59,6 +59,17 @@ pub fn run(out: &mut Out, thorough: bool, seed: u64) {
                 }
             }
         }
+        // designated input classes the small-atom enumeration does not reach
+        for node in ast::dimension_corpus(ctx) {
+            n_frag += 1;
+            node.count_frags(out);
+            out.count("dimension corpus");
+            for a in msops::asset_subsets(&node, if thorough { 64 } else { 24 }) {
+                for mall in [false, true] {
+                    with_ctx!(ctx, emit_sat(out, ctx, &node, &a, mall));
+                }
+            }
+        }
         // random larger scripts
         let n_rand = if thorough { 400 } else { 60 };
         for _ in 0..n_rand {
@@ -84,6 +95,19 @@ pub fn run(out: &mut Out, thorough: bool, seed: u64) {
                 if let Some(d) = desc::build_desc(*w, &t.node, 0) {
                     n_desc += 1;
                     for a in dassets_subsets(&[&t.node], if thorough { 16 } else { 5 }) {
+                        for mall in [false, true] { desc::satisfy_and_judge(out, &d, &a, mall); }
+                    }
+                }
+            }
+        }
+    }
+    for (ctx, wraps) in [(CtxK::Segwitv0, vec![Wrap::Wsh, Wrap::ShWsh]), (CtxK::Legacy, vec![Wrap::Sh]), (CtxK::Bare, vec![Wrap::Bare])] {
+        for node in ast::dimension_corpus(ctx) {
+            if node.clone().has_rawpkh() { continue; }   // TxSat has no raw-pkh lookups
+            for w in &wraps {
+                if let Some(d) = desc::build_desc(*w, &node, 0) {
+                    n_desc += 1;
+                    for a in dassets_subsets(&[&node], if thorough { 16 } else { 8 }) {
                         for mall in [false, true] { desc::satisfy_and_judge(out, &d, &a, mall); }
                     }
                 }
